@@ -227,7 +227,7 @@ func c20(c *Ctx) {
 				}
 			}
 		}
-		r.Check(strings.HasPrefix(dom, "call:strings.ToLower") , "R20.L", "domain:lower-cased", c.pos(hf.Pos()), "Domain ← "+dom)
+		r.Check(strings.HasPrefix(dom, "call:strings.ToLower"), "R20.L", "domain:lower-cased", c.pos(hf.Pos()), "Domain ← "+dom)
 		r.Check(inv != "" && !strings.Contains(inv, "ToLower") && !strings.Contains(inv, "ToUpper"), "R20.L", "invite:verbatim", c.pos(hf.Pos()), "Invite ← "+inv)
 		r.Check(emptyGuards >= 2, "R20.L", "empty-variable-is-error", c.pos(hf.Pos()), sprintf("%d tests of a path variable against the empty string", emptyGuards))
 	}
